@@ -352,6 +352,9 @@ func decorateAddr(style int, uri, tag string) string {
 	if strings.HasPrefix(uri, "tel:") || strings.HasPrefix(uri, "urn:") {
 		s = "<" + uri + ">"
 	}
+	if style%11 == 4 && !strings.ContainsAny(uri, ";?,") {
+		s = uri // the addr-spec form: no brackets
+	}
 	if tag != "" {
 		s += ";tag=" + tag
 	}
@@ -396,7 +399,8 @@ func (ids dlgIDs) request(o reqOpts) []byte {
 	b.Add(names[0], from)
 	b.Add(names[1], to)
 	b.Add(names[2], ids.callID)
-	b.Add(names[3], fmt.Sprintf("%d %s", o.cseq, o.method))
+	// LWS between the sequence number and the method: one blank, now and then two or a tab (the answer echoes it)
+	b.Add(names[3], strconv.Itoa(o.cseq)+[]string{" ", " ", " ", " ", " ", " ", " ", "  ", "\t"}[o.style%9]+o.method)
 	b.Add("X-Sim-Id", o.id)
 	for _, h := range o.extra {
 		b.Add(h.Name, h.Value)
